@@ -96,7 +96,13 @@ def result_of(kind, kw):
 def record_fn(_xv=("int", None), **kw):
     """Module-level (hence picklable) recording function.  ``_xv`` is bound
     with functools.partial: (result kind, log file or None)."""
-    kind, logfile = _xv
+    kind, logfile = _xv[:2]
+    if len(_xv) > 2 and _xv[2]:
+        # (delay, n): earlier settings take longer, so that anything
+        # collecting results in completion order gets them reversed
+        import time
+        delay, n = _xv[2]
+        time.sleep(delay * max(0.0, (n - float(kw.get("a", 0))) / n))
     if logfile is None:
         LOG.append(dict(kw))
     else:
